@@ -165,6 +165,14 @@ func (r *rwRT) ruleFilePasses() {
 		for i, e := range o.St.Events {
 			if e.Kind == "store" && strings.HasPrefix(e.Target, "r.") && (collectAt < 0) {
 				reset[strings.TrimPrefix(e.Target, "r.")] = true
+				if sv, ok := e.Args[0].(StructV); ok && sv.T != nil {
+					// a whole group of fields re-initialised by one composite literal
+					if st, ok := sv.T.Underlying().(*types.Struct); ok {
+						for _, l := range leafFields(st, "") {
+							reset[strings.TrimPrefix(e.Target, "r.")+"."+l] = true
+						}
+					}
+				}
 				// the new value must not be derived from what the previous file left in the field
 				if strings.Contains(epochRe.ReplaceAllString(e.Args[0].String(), ""), "⟨"+e.Target) {
 					carried = append(carried, strings.TrimPrefix(e.Target, "r.")+" = "+canon(e.Args[0]))
@@ -388,12 +396,33 @@ func (r *rwRT) writtenRewriterFields() []string {
 		n, ok := t.(*types.Named)
 		return ok && n.Obj().Name() == "rewriter" && n.Obj().Pkg() != nil && n.Obj().Pkg().Path() == pathRw
 	}
-	fieldOf := func(v ssa.Value) string {
+	// dotted path of a field below the rewriter (fields may be grouped in embedded structs)
+	var fieldOf func(v ssa.Value) string
+	fieldOf = func(v ssa.Value) string {
 		fa, ok := v.(*ssa.FieldAddr)
-		if !ok || !isRewriter(fa.X.Type()) {
+		if !ok {
 			return ""
 		}
-		return fieldName(fa.X.Type(), fa.Field)
+		if isRewriter(fa.X.Type()) {
+			return fieldName(fa.X.Type(), fa.Field)
+		}
+		if outer := fieldOf(fa.X); outer != "" {
+			return outer + "." + fieldName(fa.X.Type(), fa.Field)
+		}
+		return ""
+	}
+	mark := func(path string, t types.Type) {
+		// a store to a struct-valued field writes every field of the struct
+		if p, ok := t.Underlying().(*types.Pointer); ok {
+			t = p.Elem()
+		}
+		if st, ok := t.Underlying().(*types.Struct); ok && st.NumFields() > 0 {
+			for _, l := range leafFields(st, "") {
+				seen[path+"."+l] = true
+			}
+			return
+		}
+		seen[path] = true
 	}
 	var visit func(fn *ssa.Function)
 	visit = func(fn *ssa.Function) {
@@ -405,7 +434,7 @@ func (r *rwRT) writtenRewriterFields() []string {
 				switch x := ins.(type) {
 				case *ssa.Store:
 					if f := fieldOf(x.Addr); f != "" {
-						seen[f] = true
+						mark(f, x.Val.Type())
 					}
 				case *ssa.MapUpdate:
 					if u, ok := x.Map.(*ssa.UnOp); ok {
